@@ -73,6 +73,11 @@ type Mutant struct {
 var leads = []string{"", "\n\n  ", " ", "\t", "\r\n", "\n", "", "   \n"}
 var leadCounter int
 
+// what may follow a declaration: the end of the line, alone or behind a comment (closers with an even and an odd number of stars)
+var eols = []string{"\n", " /** c **/\n", "\n// c\n", " /* a ** b **/\n", "\n", "\n/***/\n", " /****/ \n"}
+
+func nextEol() string { return eols[leadCounter%len(eols)] }
+
 func runMutant(id, mut string, toks []PTok) Mutant {
 	leadCounter++
 	return runMutantLead(id, mut, toks, leads[leadCounter%len(leads)])
@@ -84,7 +89,7 @@ func runMutantLead(id, mut string, toks []PTok, lead string) Mutant {
 	for i := range ts {
 		ts[i].End = ts[i].K == ";"
 	}
-	text := layout(ts, lead, " ", "\n")
+	text := layout(ts, lead, " ", nextEol())
 	m := Mutant{ID: id, Mut: mut, Text: text, Kinds: []string{}, Pos: [][]int{}, Lens: []int{}}
 	for _, t := range ts {
 		m.Kinds = append(m.Kinds, t.K)
@@ -298,7 +303,11 @@ func cmdLexicalMutants(args []string) error {
 						sep = "" // no blanks at all: tokens and the stray text run together
 					}
 					leadCounter++
-					text := layout(ts, leads[leadCounter%len(leads)], sep, "\n")
+					eol := "\n"
+					if sep != "" {
+						eol = nextEol()
+					}
+					text := layout(ts, leads[leadCounter%len(leads)], sep, eol)
 					if err := w.Write(frontRec(fmt.Sprintf("%s-%d/stray@%d:%s:%v", s.Fam, n, i, stray, glue), text)); err != nil {
 						return err
 					}
